@@ -1,5 +1,5 @@
 /-
-  C05 (discrete clause) — the generic theorems of `Draft/C05/DiscreteDefault.lean` instantiated for
+  C05 (discrete clause) — the generic theorems of `Props/C05/DiscreteDefault.lean` instantiated for
   the families whose generated `inverse_cdf` is the trait default: Binomial, Poisson,
   NegativeBinomial, Hypergeometric (Bernoulli, Geometric, DiscreteUniform are in
   `Props/C05/Discrete.lean`; Categorical has its own `inverse_cdf`, a binary search over the
@@ -15,7 +15,7 @@
   from the C01 theorem.  Hypergeometric needs no special-function premise for monotonicity (its cdf
   is a partial sum of exponentials, strictly increasing inside the support), only `cdf ≤ 1`.
 -/
-import Statrs.Draft.C05.DiscreteDefault
+import Statrs.Props.C05.DiscreteDefault
 import Statrs.Props.C01.Special
 import Statrs.Lemmas.TestsHyper
 import Statrs.Gen.D_binomial
